@@ -10,9 +10,12 @@ CONSTANTS
   Targets = {1, 2, 3}
   DnsPort = {2}
   Allowed = {1, 2}
+  Unsendable = {}
+  DisarmFirst = TRUE
   Fam <- MCFam
   DgAlpha <- DgC16
   RpAlpha <- RpC16
+  MidAlpha <- NoMid
   Sync = FALSE
   T = 2
   DNST = 3
